@@ -104,12 +104,17 @@ func (cl *ClientLimiter) gcLoop() {
 }
 
 func (cl *ClientLimiter) gc() {
-	ddl := time.Now().Add(-entryTtl)
+	now := time.Now()
+	ddl := now.Add(-entryTtl)
 	cl.m.Range(func(key netip.Addr, value *e) bool {
 		value.m.Lock()
 		lastSeen := value.lastSeen
+		// An idle entry can only be dropped if its bucket is full again.
+		// Otherwise, the client would get a new (full) bucket, which is
+		// another burst, with its next query.
+		full := value.l.TokensAt(now) >= float64(value.l.Burst())
 		value.m.Unlock()
-		if lastSeen.Before(ddl) {
+		if lastSeen.Before(ddl) && full {
 			cl.m.Delete(key)
 		}
 		return true
